@@ -225,7 +225,15 @@ class Impl:
     def ref(self, r):
         if 'c' in r:
             return self.env[r['c']]
-        return self.env[r['p']][py_selector(r['r'])]
+        sl = self.env[r['p']][py_selector(r['r'])]
+        import zlib
+        if zlib.crc32(json.dumps(r, sort_keys=True).encode()) % 2 == 0:
+            # half of the regions are looked at before they are used (whatever a slice caches is then in place when the operation copies it)
+            try:
+                sl.get_volumes(); sl.get_substances(); sl.shape; sl.size
+            except Exception:  # noqa
+                pass
+        return sl
 
     def what(self, w):
         return self.subs[w['s']] if 's' in w else KINDS[w['k']]
